@@ -3,7 +3,7 @@
 p=$1; id=$2; tier=${3:-quick}
 cd /repo || exit 2
 if [ -n "$(git status --porcelain)" ]; then echo "/repo not clean"; exit 2; fi
-if ! git apply --3way "$p" 2>/tmp/apply.err && ! git apply "$p" 2>>/tmp/apply.err; then echo "PATCH DOES NOT APPLY"; cat /tmp/apply.err; git checkout -- . ; git reset -q; exit 3; fi
+if ! git apply --3way "$p" 2>/tmp/apply.err && ! git apply "$p" 2>>/tmp/apply.err; then echo "PATCH DOES NOT APPLY"; cat /tmp/apply.err; git reset -q --hard HEAD; exit 3; fi
 git reset -q
 cd /verif && timeout 3000 ./check "$id" --tier "$tier" > /tmp/try_$id.out 2>&1; rc=$?
 cd /repo && git checkout -- . && git clean -fdq
